@@ -10,12 +10,17 @@ BLOCK_HINT = {0x12: 505, 0x13: 500, 0x20: 160, 0x21: 2, 0x22: 160, 0x23: 160, 0x
               0x40: 50, 0x41: 50, 0x42: 50, 0x70: 4096, 0x71: 4096, 0x72: 4096, 0x73: 4096}
 
 
-def pick_lengths(rng, fmt):
+def block_hint(fmt):
     b = BLOCK_HINT.get(fmt.codec, 1)
     if fmt.major == 0x11:      # SDS: 60/40/30 samples per block
         b = 60
     if fmt.major == 0x05 and fmt.codec == 0x03:   # PAF24: 10 frames per block
         b = 10
+    return b
+
+
+def pick_lengths(rng, fmt):
+    b = block_hint(fmt)
     cands = [0, 1, 2, 3, b - 1, b, b + 1, 2 * b + 1, 3 * b - 1, 4 * b + 1, 5 * b + 7, 7 * b - 1, 100, 257, 1000]
     cands = [c for c in cands if 0 <= c <= 9000]
     return cands
@@ -94,10 +99,12 @@ def test_phase(rng, fmt, ch, F, filehex, nops, sr=8000, raw_fmt=None):
         b = 10
     pos = 0      # the generator's own idea of the read position (only used to aim at block boundaries)
     k = 0
+    first = b > 1 and F > b and rng.random() < 0.5      # half of the block-codec histories start with the boundary pattern
     while k < nops:
         k += 1
         r = rng.random()
-        if b > 1 and r < 0.12 and pos < F:
+        if b > 1 and (r < 0.12 or first) and pos < F:
+            first = False
             # read exactly up to the next block boundary, then move a little inside the block that starts there:
             # lazily decoding readers still hold the previous block at that moment
             n = b - pos % b
